@@ -68,7 +68,7 @@ class Prop:
             "clock after every driver call, raised range errors and never-run cancelled actions are compared with an independent reference "
             "scheduler (heap ordered by (due, insertion seq)). Distinct = (clock kind, driver shape, invocation log); non-trivial = at least "
             "three actions ran and at least one tie or nested schedule occurred. One scenario in 250 runs under the TH engine: 2-5 pre-scheduled actions "
-            "(some scheduling a further one), two controlled threads calling start() / advance_to() on the same scheduler with 1-3 forced pre-emptions "
+            "(some scheduling a further one), two controlled threads calling start() / advance_to() / schedule_absolute() on the same scheduler with 1-3 forced pre-emptions "
             "(or a single-pre-emption sweep): no action twice or at once, due-time order, clock never behind a due time nor backwards, and "
             "nothing lost when both only call start().")
     assumptions = ["fewer than 100 actions share an instant (the anti-spin clock bump is C29's subject)", "zero-length advances are not generated (advance_to(now) is documented as a no-op)",
@@ -242,7 +242,7 @@ class Prop:
         from simlib import th
         n = rng.randrange(2, 6)
         acts = [{"id": i, "t": rng.choice([0, 5, 10, 10, 20, 20, 50]), "child": rng.choice([None, None, 0, 5, 30])} for i in range(n)]
-        drv = lambda: [rng.choice([["start"], ["start"], ["advance_to", rng.choice([10, 20, 60])]]) for _ in range(rng.choice([1, 1, 2]))]  # noqa: E731
+        drv = lambda: [rng.choice([["start"], ["start"], ["advance_to", rng.choice([10, 20, 60])], ["sched", rng.choice([0, 5, 15, 40])]]) for _ in range(rng.choice([1, 1, 2]))]  # noqa: E731
         return {"mode": "th", "clock": rng.choice(["vts", "historical"]), "acts": acts, "drivers": [drv(), drv()],
                 "sched": th.gen_sched(rng, ks=(1, 2, 2, 3), sweep_p=0.1, opcode_p=0.3)}
 
@@ -289,6 +289,12 @@ class Prop:
                         for op in ops_:
                             if op[0] == "start":
                                 s.start()
+                            elif op[0] == "sched":
+                                # scheduled from this thread while the other one may be running the queue (the scheduler's own lock
+                                # is what makes that legal); it runs at its due time or, if that is past, at the current clock
+                                cid = nid[0]
+                                nid[0] += 1
+                                s.schedule_absolute(due_of(op[1]), mk(cid, float(op[1]), None))
                             else:
                                 try:
                                     s.advance_to(due_of(op[1]))
@@ -332,7 +338,8 @@ class Prop:
                 bad("clock", "the clock moved backwards (%s after %s)" % (c, clk))
             clk = c
         dues = [e[2] for e in log]
-        if any(b < a - 1e-9 for a, b in zip(dues, dues[1:])):
+        late_sched = any(op[0] == "sched" for d in sc["drivers"] for op in d)  # (an action scheduled into the past of a running clock runs late)
+        if not late_sched and any(b < a - 1e-9 for a, b in zip(dues, dues[1:])):
             bad("order", "actions did not run in due-time order")
         if not sim.failure and st["done"] == 2 and all(op[0] == "start" for d in sc["drivers"] for op in d):
             expect = len(sc["acts"]) + sum(1 for a in sc["acts"] if a["child"] is not None)
